@@ -925,21 +925,13 @@ def gen_policy(rng, rs, well_typed=None, env=None, depth=3, allow_slots=True, pi
             body = conj(narrow + [body])
         else:
             body = ("if", conj(narrow), body, FALSE)
-<<<<<<< HEAD
-    if r.random() < 0.15 and well_typed:
-        conds.append(("when", g.gen_bool(1)))
-=======
->>>>>>> c03
     if r.random() < 0.12:
         conds.append(("unless", ("unop", "not", body)))
     else:
         conds.append(("when", body))
-<<<<<<< HEAD
-=======
     if r.random() < 0.15 and well_typed:
         # a second clause: typed after (and under the capabilities of) the first, which carries the narrowing
         conds.append(("when", g.gen_bool(1)))
->>>>>>> c03
     pol["conds"] = conds
     slots = {}
     for v, c in (("principal", pc), ("resource", rc)):
